@@ -16,11 +16,13 @@ open Uflow.Rate (FloatOps)
 
 variable {F : Type}
 
-/-- The resynchronization clause of `OpOk` alone: a sync frame handed to `B` carries no packet id, or
-one on which `PRecv.resynchronize` does nothing in `B`'s current state. -/
+/-- The resynchronization clause of `OpOk` without its freshness part: a sync frame handed to `B`
+carries no packet id, or one on which `PRecv.resynchronize` does nothing in `B`'s current state, or one
+recorded in `syncs` (the frame was emitted while `SyncOkP` held). -/
 def OpOkR (h : HcPair F) : POp → Prop
   | .deliverAB k => ∀ bytes, h.wireAB[k]? = some bytes →
-      ∀ nf id, decode bytes = some (.sync nf (some id)) → PRecv.resynchronize h.B.pr id = .ok h.B.pr
+      ∀ nf id, decode bytes = some (.sync nf (some id)) →
+        PRecv.resynchronize h.B.pr id = .ok h.B.pr ∨ ∃ n, (n, id) ∈ h.syncs
   | _ => True
 
 def GuardedR (fo : FloatOps F) : HcPair F → List POp → Prop
@@ -35,7 +37,11 @@ theorem guardedR_of_guarded (fo : FloatOps F) (sched : List POp) (h : HcPair F)
     obtain ⟨hok, hrest⟩ := hg
     refine ⟨?_, fun h' hs => ih h' (hrest h' hs)⟩
     cases op with
-    | deliverAB k => exact fun bytes hk => (hok bytes hk).2
+    | deliverAB k =>
+      intro bytes hk nf id hd
+      rcases (hok bytes hk).2 nf id hd with h1 | ⟨n, h2, _⟩
+      · exact Or.inl h1
+      · exact Or.inr ⟨n, h2⟩
     | deliverBA k => trivial
     | sendA d c m => trivial
     | flushA => trivial
@@ -118,7 +124,15 @@ theorem opOk_of_few (w k b a m : Nat) (hw : w ≤ 2^19) (hk : k ≤ 19) (hb : b 
   cases op with
   | deliverAB k' =>
     intro bytes hk'
-    refine ⟨?_, hor bytes hk'⟩
+    have h1 : h.advB ≤ h.pend.length := by
+      rw [← hr.adv, ← hr.pend, ← hr.elen]; exact hinv.hi
+    have h2 : h.B.pr.windowSize = 2^k := by rw [← hr.rcv]; exact hinv.rcv.inv.wsz
+    refine ⟨?_, ?_⟩
+    rotate_left
+    · intro nf id hd
+      rcases hor bytes hk' nf id hd with h3 | ⟨n, h3⟩
+      · exact Or.inl h3
+      · exact Or.inr ⟨n, h3, by omega⟩
     intro id nonce dgs hd _ d hm
     have hmem : bytes ∈ h.wireAB := List.mem_of_getElem? hk'
     obtain ⟨i, hfr⟩ := wire_decode_data (hi.wab bytes hmem) (fun d hg => genuine_ok hi.a d hg) id nonce dgs hd d hm
